@@ -781,11 +781,8 @@ wstubs! {
 fn c10_raw_unknown_only() { raw_stream_contract(vec![(tree::ROOT, EBMLSize::Unknown, 0)], false) }
 }
 
-wstubs! {
-#[kani::unwind(12)]
-fn c10_flush_closes_empty_master() {
-    // a known-size master was started and nothing written yet: flush() must still close it and deliver its header
-    let known_outer: bool = kani::any();
+/// a known-size master was started and nothing written yet: flush() must still close it and deliver its header
+fn flush_closes_empty_master(known_outer: bool) {
     let mut w = TagWriter::new(Sink::new(SINK));
     if known_outer {
         w.verif_seed(vec![(tree::ROOT, EBMLSize::Known(0), 0)], Vec::new());
@@ -799,8 +796,15 @@ fn c10_flush_closes_empty_master() {
     let d = w.get_ref();
     let id = if known_outer { tree::ROOT } else { tree::A };
     assert!(d.len == 2 && d.data[0] == id as u8 && d.data[1] == 0x80, "C10: flush() delivers the header of a master that was opened but is still empty");
-    kani::cover!(!known_outer, "empty known-size master under an unknown-size one reached");
+    kani::cover!(d.len == 2, "header delivered reached");
     core::mem::forget(r);
     core::mem::forget(w);
 }
+wstubs! {
+#[kani::unwind(12)]
+fn c10_flush_closes_empty_root() { flush_closes_empty_master(true) }
+}
+wstubs! {
+#[kani::unwind(12)]
+fn c10_flush_closes_empty_inner() { flush_closes_empty_master(false) }
 }
